@@ -77,7 +77,13 @@ structure St where
   beta : Rat := 0
   nvg : Nat := 0
   dones : Bool := false
+  subsens : Bool := true
+  rand : Bool := false
+  filt : Nat := 0
+  filtInterval : Int := 0
+  postfilt : Nat := 0
   rows : Array Row := #[]
+  srows : Array Row := #[]
   wRange : List Int := []
   weights : Array Rat := #[]
   kappa : Option (Array Rat) := none
@@ -112,7 +118,8 @@ def St.build (s : St) : St :=
                  weights := #[], kappa := s.kappa, depends := s.priorKind == "quaddep" }
       else none
     let q : Problem := { nz := s.nz, ny := s.ny, nx := s.nx, numSubsets := s.ns, rows := s.rows, numViewgrams := s.nvg,
-                         prior := prior, priorNotParabolic := s.priorKind == "notparabolic" }
+                         prior := prior, priorNotParabolic := s.priorKind == "notparabolic", useSubsetSens := s.subsens,
+                         sensRows := if s.srows.isEmpty then none else some s.srows }
     { s with problem := some q, nonIdent := q.nonIdent }
 
 def St.withHess (s : St) : St :=
@@ -124,19 +131,19 @@ def St.withHess (s : St) : St :=
 
 /-- Σ|terms| of the float evaluation of the penalised sub-gradient, weighted with the operation counts on the path -/
 def gradBound (q : Problem) (subset : Int) (x : Array Rat) (g : Array Rat) : Array Rat :=
-  let ymax := viewgramMax q (fun r => r.y)
+  let ymax := viewgramMax q (fun r => if r.zeroed then 0 else r.y)
   let absx := x.map absR
   let zeros : Array Rat := Array.replicate q.nvox 0
   let cnt := q.rows.foldl (fun c r => if r.subset != subset then c else r.elems.foldl (fun c e => c.modify e.1 (· + 1)) c) zeros
   let lik := q.rows.foldl (fun out r =>
-    if r.subset != subset then out
+    if r.subset != subset || r.zeroed then out      -- a zeroed bin back projects an exact 0
     else
       let den := r.forward x + r.add
       let mden := r.forward absx + absR r.add
       let quot := divideAndTruncate (smallValueOf ymax r.vg SMALL_NUM) r.y den
       let rel : Rat := if den == 0 then 0 else ((r.elems.length : Nat) + 3 : Nat) * mden / absR den
-      let t := absR quot * (rel + 2) + 2
-      r.elems.foldl (fun o e => o.modify e.1 (· + e.2 * (t + (cnt.getD e.1 0 + 2) * absR (quot - 1)))) out) zeros
+      let t := absR quot * (rel + 2) + 2 + 2 * absR r.mult
+      r.elems.foldl (fun o e => o.modify e.1 (· + e.2 * (t + (cnt.getD e.1 0 + 2) * absR (quot - r.mult)))) out) zeros
   let pm : Array Rat := match q.prior with
     | some pr =>
       if pr.beta == 0 then zeros
@@ -148,7 +155,7 @@ def gradBound (q : Problem) (subset : Int) (x : Array Rat) (g : Array Rat) : Arr
 def opCount (q : Problem) : Nat :=
   let maxRow := q.rows.foldl (fun m r => max m r.elems.length) 0
   let cnt := q.rows.foldl (fun c r => r.elems.foldl (fun c e => c.modify e.1 (· + 1)) c) (Array.replicate q.nvox 0)
-  maxRow + cnt.foldl max 0 + q.numSubsets.toNat + 6
+  maxRow + cnt.foldl max 0 + q.numSubsets.toNat + 8
 
 def parseVec (toks : List String) : Option (List Rat) := toks.mapM parseHex
 
@@ -161,6 +168,31 @@ def sections (toks : List String) : List (List String) :=
 
 def joinVT (vs ts : List Rat) : String := " ".intercalate (List.zipWith fmtVT vs ts)
 
+/-- 12 tokens: origin z y x, min/max index per dimension, spacing z y x -/
+def parseChars (toks : List String) : Option Chars :=
+  match toks with
+  | [oz, oy, ox, a, b, c, d, e, f, sz, sy, sx] =>
+    match parseVec [oz, oy, ox], [a, b, c, d, e, f].mapM String.toInt?, parseVec [sz, sy, sx] with
+    | some o, some r, some sp => some { origin := o, range := r, spacing := sp }
+    | _, _, _ => none
+  | _ => none
+
+/-- the taps (c₋₁, c₀, c₁) of the harness' filter kinds: 1 smoothing, 2 sharpening -/
+def taps (kind : Nat) : Rat × Rat × Rat :=
+  if kind == 1 then (1 / 4, 1 / 2, 1 / 4) else (-1 / 8, 5 / 4, -1 / 8)
+
+def St.filters (s : St) (absolute : Bool) : Filters :=
+  let mk (kind : Nat) : Option (Img → Img) :=
+    if kind == 0 then none
+    else
+      let (a, b, c) := taps kind
+      some (if absolute then sepConvYX s.ny s.nx (absR a) (absR b) (absR c) else sepConvYX s.ny s.nx a b c)
+  { interInterval := s.filtInterval, inter := mk s.filt, post := mk s.postfilt }
+
+def elemPairs : List String → List (Nat × Rat)
+  | j :: v :: r => (j.toNat?.getD 0, (parseHex v).getD 0) :: elemPairs r
+  | _ => []
+
 def stepLine (s : St) (line : String) : St × String :=
   let toks := (line.trimAscii.toString.splitOn " ").filter (· ≠ "")
   let I (t : String) : Int := t.toInt?.getD 0
@@ -168,20 +200,24 @@ def stepLine (s : St) (line : String) : St × String :=
   let R (t : String) : Rat := (parseHex t).getD 0
   match toks with
   | "cfg" :: _ :: "dims" :: nz :: ny :: nx :: "ns" :: ns :: "ss" :: ss :: "alpha" :: al :: "gamma" :: ga :: "ub" :: ub
-      :: "prior" :: pk :: "beta" :: be :: "kappa" :: _ :: "add" :: _ :: "nvg" :: nvg :: "dones" :: dones :: _ =>
+      :: "prior" :: pk :: "beta" :: be :: "kappa" :: _ :: "add" :: _ :: "nvg" :: nvg :: "dones" :: dones
+      :: "norm" :: _ :: "tof" :: _ :: "tofsens" :: _ :: "zero" :: _ :: "subsens" :: subsens :: "rand" :: rnd
+      :: "filt" :: fk :: fi :: pf :: _ =>
     ({ nz := N nz, ny := N ny, nx := N nx, ns := I ns, ss := I ss, alpha := R al, gamma := R ga, ub := R ub,
-       priorKind := pk, beta := R be, nvg := N nvg, dones := dones == "1" }, "ok")
+       priorKind := pk, beta := R be, nvg := N nvg, dones := dones == "1", subsens := subsens == "1", rand := rnd == "1",
+       filt := N fk, filtInterval := I fi, postfilt := N pf }, "ok")
   | ["defaults"] =>
     let d := Params.default
     (s, s!"{if d.enforceInitialPositivity then 1 else 0} {fmtVT d.upperBound 0} {fmtVT d.alpha 0} {fmtVT d.gamma 0} {d.numSubsets} {d.startSubset} {d.numSubiterations} 1 {if d.denominatorOnes then "given" else "computed"}")
   | "weights" :: a :: b :: c :: d :: e :: f :: "|" :: ws =>
     ({ s with wRange := [I a, I b, I c, I d, I e, I f], weights := (ws.map R).toArray }, "ok")
   | "kappa" :: "|" :: ks => ({ s with kappa := some (ks.map R).toArray }, "ok")
-  | "row" :: vg :: sub :: y :: a :: _ :: rest =>
-    let rec pairs : List String → List (Nat × Rat)
-      | j :: v :: r => (N j, R v) :: pairs r
-      | _ => []
-    ({ s with rows := s.rows.push { vg := N vg, subset := I sub, y := R y, add := R a, elems := pairs rest } }, "ok")
+  | "row" :: vg :: sub :: y :: a :: nf :: z :: _ :: rest =>
+    ({ s with rows := s.rows.push { vg := N vg, subset := I sub, y := R y, add := R a, elems := elemPairs rest, norm := R nf,
+                                    zeroed := z == "1" } }, "ok")
+  | "srow" :: sub :: nf :: z :: _ :: rest =>
+    ({ s with srows := s.srows.push { vg := 0, subset := I sub, y := 0, add := 0, elems := elemPairs rest, norm := R nf,
+                                      zeroed := z == "1" } }, "ok")
   | ["sens0"] =>
     let s := s.build
     (s, String.ofList (s.nonIdent.toList.map fun b => if b then '1' else '0'))
@@ -203,6 +239,28 @@ def stepLine (s : St) (line : String) : St × String :=
           let td := d0.map (fun d => 4 * eps * (n : Rat) * absR d + tiny)
           ({ s with denom := d0 }, "ok | " ++ joinVT x' tx ++ " | " ++ joinVT d0 td)
     | _, _ => (s, "bad-setup")
+  | "setupf" :: st :: k :: ep :: "|" :: rest =>
+    let s := s.build
+    let s := { s with start := I st, numSub := I k, ep := ep == "1", stepsDone := 0 }
+    match s.problem, sections rest with
+    | some q, [img, tch, fch, dv] =>
+      match parseVec img, parseChars tch with
+      | some x, some tc =>
+        let file : Option DenomFile :=
+          if fch == ["missing"] then some .unreadable
+          else match parseChars fch, parseVec dv with
+            | some fc, some d => some (.image fc d)
+            | _, _ => none
+        match file with
+        | none => (s, "bad-setupf")
+        | some file =>
+          match setUpFile s.params (q.toObjectiveWith [] s.nonIdent.toList) s.start tc file x with
+          | none => (s, "err")
+          | some (x', dset) =>
+            let tx := List.zipWith (fun a b => if a == b then (0 : Rat) else 4 * eps * absR b + tiny) x x'
+            ({ s with denom := dset }, "ok | " ++ joinVT x' tx ++ " | unobserved")
+      | _, _ => (s, "bad-setupf")
+    | _, _ => (s, "bad-setupf")
   | "d0sync" :: "|" :: d =>
     match parseVec d with
     | some dv => ({ s with denom := dv }, "ok")
@@ -221,7 +279,11 @@ def stepLine (s : St) (line : String) : St × String :=
       (s, joinVT c (c.map fun v => 4 * eps * 90 * absR v + tiny))
     | _, _ => (s, "bad-curv")
   | "step" :: k :: "|" :: rest =>
-    match s.problem, sections rest with
+    let secs := sections rest
+    let (secs, givenSubset) : List (List String) × Option Int := match secs with
+      | [bs, gs, cs, [sub]] => ([bs, gs, cs], sub.toInt?)
+      | other => (other, none)
+    match s.problem, secs with
     | some q, [bs, gs, cs] =>
       match parseVec bs, parseVec gs with
       | some before, some g =>
@@ -242,9 +304,19 @@ def stepLine (s : St) (line : String) : St × String :=
           let u := List.zipWith (fun gj dj => gj * (s.ns : Rat) / dj * zeta) g D
           let tol := List.zipWith (fun xj uj => 32 * eps * (absR xj + absR uj) + tiny) x u
           ({ s with denom := st'.denom, stepsDone := s.stepsDone + 1 },
-           toString (subsetNum st.k s.ss s.ns) ++ " | " ++ joinVT st'.image tol)
+           -- randomised subset order: the subset is the implementation's choice (the gradient arrives as data anyway)
+           toString (if s.rand then givenSubset.getD (-1) else subsetNum st.k s.ss s.ns) ++ " | " ++ joinVT st'.image tol)
       | _, _ => (s, "bad-step")
     | _, _ => (s, "bad-step")
+  | "endit" :: k :: "|" :: img =>
+    match parseVec img with
+    | some x =>
+      let out := endOfIteration (s.filters false) s.numSub (I k) x
+      -- Σ|terms| of the two passes (3 multiplications, 2 additions each): |taps| applied to |image|
+      let mag := endOfIteration (s.filters true) s.numSub (I k) (x.map absR)
+      let tol := List.zipWith (fun a m => if out == x then (0 : Rat) else 64 * eps * m + tiny + 0 * a) out mag
+      (s, joinVT out tol)
+    | none => (s, "bad-endit")
   | ["rerun", st, k] => ({ s with start := I st, numSub := I k, stepsDone := 0 }, "ok")
   | ["endrun"] => (s, toString (s.numSub - s.start + 1).toNat)
   | _ => (s, "bad-op")
